@@ -22,8 +22,33 @@ Inductive query :=
   | QLen (p : list step) (n : Z)                      (* <p>.len() == n, p an array or a map *)
   | QAny (p sub : list step) (l : lit)                (* for any x in <p> : (x<sub> == l) *)
   | QAll (p sub : list step) (l : lit)                (* for all x in <p> : (x<sub> == l), p not empty *)
-  | QMapAny (p : list step) (k : value) (sub : list step) (l : lit).
+  | QMapAny (p : list step) (k : value) (sub : list step) (l : lit)
                                                       (* for any k, v in <p> : (k == K and v<sub> == l) *)
+  (* conditions that read the exact bytes of a string value *)
+  | QStrLen (p : list step) (n : Z)                   (* <p>.len() == n, p a string *)
+  | QContains (p : list step) (needle : list N)       (* <p> contains "needle" *)
+  | QStartsWith (p : list step) (needle : list N)     (* <p> startswith "needle" *)
+  | QEndsWith (p : list step) (needle : list N).      (* <p> endswith "needle" *)
+
+Fixpoint prefix_b (a b : list N) : bool :=
+  match a, b with
+  | [], _ => true
+  | x :: a', y :: b' => N.eqb x y && prefix_b a' b'
+  | _ :: _, [] => false
+  end.
+Fixpoint infix_b (a b : list N) : bool :=
+  prefix_b a b || match b with [] => false | _ :: b' => infix_b a b' end.
+Fixpoint assoc_bytes (s : N) (tbl : list (N * list N)) : option (list N) :=
+  match tbl with
+  | [] => None
+  | (k, b) :: r => if N.eqb k s then Some b else assoc_bytes s r
+  end.
+(* a condition on the bytes of the string a path leads to ([tbl]: bytes of the interned strings) *)
+Definition on_bytes (tbl : list (N * list N)) (r : res) (f : list N -> bool) : bool :=
+  match r with
+  | RS s => match assoc_bytes s tbl with Some b => f b | None => false end
+  | _ => false
+  end.
 
 Definition res_eq (r : res) (l : lit) : bool :=
   match r, l with
@@ -34,7 +59,7 @@ Definition res_eq (r : res) (l : lit) : bool :=
   | _, _ => false
   end.
 
-Definition eval (F : list step -> res) (q : query) : bool :=
+Definition eval (tbl : list (N * list N)) (F : list step -> res) (q : query) : bool :=
   match q with
   | QDefined p => match F p with Undef | Stuck => false | _ => true end
   | QEq p l => res_eq (F p) l
@@ -47,10 +72,16 @@ Definition eval (F : list step -> res) (q : query) : bool :=
                     | _ => false
                     end
   | QAll p sub l => match F p with
-                    | RObjArr k => forallb (fun i => res_eq (F (p ++ SIndex (Z.of_nat i) :: sub)) l) (seq 0 k)
+                    (* `for all` over an empty array is false in yara-x (the loop body never runs and the
+                       quantifier needs at least one iteration); the quantifiers themselves belong to C02 *)
+                    | RObjArr k => negb (Nat.eqb k 0) && forallb (fun i => res_eq (F (p ++ SIndex (Z.of_nat i) :: sub)) l) (seq 0 k)
                     | _ => false
                     end
   | QMapAny p k sub l => res_eq (F (p ++ SKey k :: sub)) l
+  | QStrLen p n => on_bytes tbl (F p) (fun b => Z.eqb (Z.of_nat (List.length b)) n)
+  | QContains p x => on_bytes tbl (F p) (infix_b x)
+  | QStartsWith p x => on_bytes tbl (F p) (prefix_b x)
+  | QEndsWith p x => on_bytes tbl (F p) (fun b => prefix_b (rev x) (rev b))
   end.
 
 (* ---- the schema generated from the .proto sources (Gen/ProtoSchema.v) ---- *)
@@ -127,7 +158,7 @@ Definition query_indexes (root : ty) (q : query) : option (list nat) :=
     | _, _ => None
     end in
   match q with
-  | QDefined p | QEq p _ | QLen p _ => direct p
+  | QDefined p | QEq p _ | QLen p _ | QStrLen p _ | QContains p _ | QStartsWith p _ | QEndsWith p _ => direct p
   | QAny p sub _ | QAll p sub _ => looped p (fun t => match t with TArr e => Some e | _ => None end) sub
   | QMapAny p _ sub _ => looped p (fun t => match t with TMap _ v => Some v | _ => None end) sub
   end.
@@ -146,11 +177,18 @@ Record case := mkCase {
   k_module : string;
   k_root : ty;                       (* the descriptor as protobuf reflection shows it *)
   k_msg : value;
-  k_queries : list obs_query }.
+  k_strs : list (N * list N);        (* bytes of the interned strings (those short enough to be queried) *)
+  k_queries : list obs_query;
+  (* conditions calling module functions that read the output message, evaluated with the
+     output computed by the module and with the same output supplied by the user *)
+  k_pairs : list (bool * bool);
+  (* the public view: ScanResults::module_output / module_outputs re-serialised = the message *)
+  k_views : list bool }.
 
 (* the harness writes field names as strings; [mk] numbers them with the generated name table *)
-Definition mk (module : string) (f : (string -> N) -> ty * value * list obs_query) : case :=
-  let '(r, v, q) := f (nm module) in mkCase module r v q.
+Definition mk (module : string)
+    (f : (string -> N) -> ty * value * list (N * list N) * list obs_query * list (bool * bool) * list bool) : case :=
+  let '(r, v, t, q, pr, vw) := f (nm module) in mkCase module r v t q pr vw.
 
 Definition check_case (k : case) : bool :=
   match generated_schema (k_module k) with
@@ -160,7 +198,7 @@ Definition check_case (k : case) : bool :=
       ty_eqb (k_root k) g &&
       forallb (fun qo : obs_query =>
                  let '(q, verdict, idx) := qo in
-                 Bool.eqb (eval (lookup g (Some (k_msg k)) false) q) verdict &&
+                 Bool.eqb (eval (k_strs k) (lookup g (Some (k_msg k)) false) q) verdict &&
                  match idx with
                  | None => true
                  | Some l => match query_indexes g q with Some m => list_nat_eqb l m | None => false end
@@ -168,4 +206,8 @@ Definition check_case (k : case) : bool :=
   end.
 
 Definition spec_case (k : case) : bool :=
-  forallb (fun qo : obs_query => Bool.eqb (eval (get_root (k_root k) (Some (k_msg k))) (fst (fst qo))) (snd (fst qo))) (k_queries k).
+  forallb (fun qo : obs_query =>
+             Bool.eqb (eval (k_strs k) (get_root (k_root k) (Some (k_msg k))) (fst (fst qo))) (snd (fst qo))) (k_queries k) &&
+  (* supplied output is observed like computed output, also by the module's functions *)
+  forallb (fun p => Bool.eqb (fst p) (snd p)) (k_pairs k) &&
+  forallb (fun b => b) (k_views k).
